@@ -456,6 +456,28 @@ func checkC04(res *Result) {
 	fns := reachFrom(p, E, "sideEffectActor.PostInbox")
 	addErrFlowObligations(res, p, E, "C04-R7", fns, true)
 	res.Functions = len(fns)
+	// shared mechanisms
+	res.Rule("C04-R8", "Accept: no step of the verification of the stored Follow is dead — every refusal in the verification closure is feasible (shared with C06-R8)")
+	if fn := p.MustFunc(res, "C04-R8", "FederatingWrappedCallbacks.accept$1"); fn != nil {
+		ffv := computeFacts(fn)
+		for _, r := range returnsIn(fn) {
+			res.check(ffv.reachable(r), "C04-R8", fname(fn), p.pos(r), "this return of the Follow verification can be reached", "under the facts established by the preceding tests this return is unreachable: the refusal it implements can never happen (e.g. a flag not reset before the search)")
+		}
+	}
+	res.Rule("C04-R9", "the automatic Accept / Reject reaches every actor of the Follow: on the delivery path every addressed actor whose inbox the Database does not know is resolved remotely (shared with C02-R5)")
+	if fn := p.Func("sideEffectActor.prepare"); fn != nil {
+		ffp := computeFacts(fn)
+		for _, c := range findCalls(E, fn, "sideEffectActor.resolveActors") {
+			okAll := true
+			for _, r := range returnsIn(fn) {
+				mn, _ := ffp.errStatus(r, 1)
+				if mn && ffp.reachable(r) && !dominates(c, r) {
+					okAll = false
+				}
+			}
+			res.check(okAll, "C04-R9", fname(fn), p.pos(c), "every success return of prepare has gone through the remote resolution of recipients", "resolveActors is conditional: some addressed actors are never resolved, the Accept does not reach them")
+		}
+	}
 	res.Assumptions = append(res.Assumptions, "value flow is an over-approximation", "CFG paths over-approximate feasible paths", "what Database.Owns answers is the application's")
 	res.Undecided = []string{"that exactly the named objects are stored (value equality)", "contents of the delivered Accept beyond the sources of actor/object/to"}
 	res.Trusted = []string{"go/types, go/ssa, go/ast (x/tools v0.29.0)", "e1_effects.go, e2_facts.go, e4_flow.go, e9_errflow.go"}
